@@ -58,7 +58,8 @@ fn streams(ctx: &Ctx, t: &mut Tape<'_>, r: &mut Report) -> CheckResult {
     let f = &suite.streams[t.idx(suite.streams.len())];
     let bs = suite.info.bs;
     let key = gen_key(t, suite);
-    let iv = gen_iv(t, bs);
+    let c = (suite.keyed)(&key);
+    let iv = gen_stream_iv(t, f.kind(), bs, c.as_ref(), suite.info.has_dec);
     let len = gen_msg_len(t, bs, 8);
     let data = tape::gen_bytes(t, len);
     let cuts = gen_cuts(t, len, bs, 8);
@@ -111,8 +112,7 @@ fn buffered(ctx: &Ctx, t: &mut Tape<'_>, r: &mut Report) -> CheckResult {
     let pieces = run_buf(a.as_mut(), &data, &cuts);
     let whole = run_buf(b.as_mut(), &data, &[len]);
     ensure_eq_bytes!(pieces, whole, format!("C08/pieces-vs-whole/{ty}"), "cuts {}", describe_cuts(&cuts));
-    let (sa, sb) = (a.get_state(), b.get_state());
-    ensure!(sa == sb, format!("C08/state/{ty}"), "exported state differs after cuts {}: {:?} vs {:?}", describe_cuts(&cuts), (tape::hex_short(&sa.0), sa.1), (tape::hex_short(&sb.0), sb.1));
+    // (the representation of the exported state is not compared: only behaviour is claimed)
     let tail = tape::bytes(3, 0xB0F, bs + 3);
     let ta = run_buf(a.as_mut(), &tail, &[tail.len()]);
     let tb = run_buf(b.as_mut(), &tail, &[tail.len()]);
